@@ -1025,7 +1025,7 @@ func runFault(seed uint64, fault string, healthy int, interval, timeout time.Dur
 	case <-time.After(limit):
 	}
 	res.worstLate = lat.end()
-	if !res.ended && res.worstLate > 200*time.Millisecond { // a very late machine: give it the watchdog
+	if !res.ended { // far beyond every bound already; a correct Run ends, however late the machine is
 		select {
 		case res.runErr = <-runDone:
 			res.ended = true
@@ -1226,7 +1226,7 @@ func run(c *hc.Ctx) error {
 			c.Eval(x.input+fmt.Sprintf(" #%d", i), true)
 			c.Count("fault." + fk[i])
 			if !x.ended {
-				c.Fail("unanswered-ping-run-not-ended", x.input, fmt.Sprintf("the keep-alive ping could not be answered (%s) but Run was still running %s later (worst timer lateness of the machine meanwhile %s)", fk[i], 300*time.Millisecond+4*time.Second, x.worstLate))
+				c.Fail("unanswered-ping-run-not-ended", x.input, fmt.Sprintf("the keep-alive ping could not be answered (%s) but Run was still running %s later (worst timer lateness of the machine meanwhile %s)", fk[i], 300*time.Millisecond+4*time.Second+watchdog, x.worstLate))
 				continue
 			}
 			if x.runErr == nil {
